@@ -58,6 +58,22 @@ CLAIMS = {
         note="numpy eigh / clipping / QR are trusted and measured (P^T P vs G+); solver optimality is an explicit hypothesis "
              "of the objective clause; primal <= dual is C01's weak duality",
         technique="Coq proof (induction over decompositions; refutation witness) + injected-solution correspondence"),
+    "C03": dict(
+        text="Coq theorems, one per shipped class (24) plus a coverage table proved equal to the list of translated classes: "
+             "for every inner-product space, every real member of the class (first-principles definitions, Spec/Classes.v) "
+             "with parameters in the documented range, every recorded state whose samples - any number, any order, "
+             "repetitions, stationary and fixed points - are genuine samples of the member under a valuation, EVERY scalar "
+             "constraint generated by the plan REGENERATED from the sources holds and EVERY class LMI is symmetric PSD. The "
+             "proof goes: generated item -> samples (ClassGen lemmas) -> operator semantics (C06) -> formula = reference "
+             "condition (FormulaEq, over the regenerated formula) -> member lemma. Tie: translator + exact correspondence of "
+             "set_class_constraints() on all 24 classes + real numerical members recorded through the real API.",
+        ref="DESIGN.md 5.3",
+        note="class membership definitions are hand-written specifications; three textbook equivalences (Lipschitz gradient "
+             "<-> two-sided quadratic bound, subdifferential of a support function, Pazy) are trusted; RsiEb under the "
+             "one-stationary-point guard; block-smooth takes orthogonal block projections as hypothesis (C15); L = inf for "
+             "smooth classes outside the claim; a merely weakened coefficient also breaks these proofs",
+        technique="Coq proof over formulas/plans regenerated from the source (real analysis + list induction) + "
+                  "correspondence + real-member search"),
     "C04": dict(
         text="Coq theorems: the pair generator produces a constraint for exactly the required pairs, each once (all ordered "
              "distinct pairs, or unordered pairs under the symmetry flag; every formula used with the flag is proved "
